@@ -47,6 +47,7 @@ type decision struct {
 	cur      uint64
 	tried    []uint64
 	needNext bool
+	pn       int
 	dead     bool
 	models   [2]map[string]uint64
 	model    map[string]uint64
@@ -91,6 +92,7 @@ type Stats struct {
 	Limits       map[string]int
 	Unknowns     int
 	Reach        map[string]int
+	Ends         map[string]int
 	Violations   []Violation
 	Samples      []Violation // witnesses (inputs of some completed paths)
 	Funcs        map[string]int // functions executed -> instruction count
@@ -103,7 +105,7 @@ type Stats struct {
 }
 
 func newStats() *Stats {
-	return &Stats{Unsupported: map[string]int{}, Limits: map[string]int{}, Reach: map[string]int{}, Funcs: map[string]int{}, Stubs: map[string]int{}}
+	return &Stats{Unsupported: map[string]int{}, Limits: map[string]int{}, Reach: map[string]int{}, Ends: map[string]int{}, Funcs: map[string]int{}, Stubs: map[string]int{}}
 }
 
 func (s *Stats) merge(o *Stats) {
@@ -131,6 +133,9 @@ func (s *Stats) merge(o *Stats) {
 	for k, v := range o.Reach {
 		s.Reach[k] += v
 	}
+	for k, v := range o.Ends {
+		s.Ends[k] += v
+	}
 	for k, v := range o.Funcs {
 		if v > s.Funcs[k] {
 			s.Funcs[k] = v
@@ -148,12 +153,22 @@ func (s *Stats) Inconclusive() bool {
 	return len(s.Unsupported) > 0 || len(s.Limits) > 0 || s.Unknowns > 0 || s.SolverErrors > 0
 }
 
+type job struct {
+	stack []decision
+	base  int // entries [0,base) are forced; later entries are owned by the job
+}
+
 type shared struct {
 	mu      sync.Mutex
-	claimed map[string]bool
+	cond    *sync.Cond
+	queue   []job
+	idle    int
+	nw      int
+	done    bool
 	paths   int
 	stop    bool
 	nviol   int
+	donated int
 }
 
 type Exec struct {
@@ -186,7 +201,8 @@ type Exec struct {
 	strCache map[string]*Obj
 	tags     []string
 	claimedK bool
-	owned    map[string]bool
+	asserted []*term.Term // literals currently asserted in the solver (mirrors a prefix of pc)
+	base     int
 
 	// side tables (per path)
 	locks  map[lockKey]int // 0 free, -1 write-held, n>0 readers
@@ -235,7 +251,9 @@ func pathKey(p []Step) string {
 // RunHarness explores all paths of the harness function with Cfg.Workers workers.
 func RunHarness(p *Program, cfg *Config, fn *ssa.Function) *Stats {
 	start := time.Now()
-	sh := &shared{claimed: map[string]bool{}}
+	sh := &shared{nw: maxInt(cfg.Workers, 1)}
+	sh.cond = sync.NewCond(&sh.mu)
+	sh.queue = []job{{}}
 	total := newStats()
 	var wg sync.WaitGroup
 	var mu sync.Mutex
@@ -317,7 +335,103 @@ func (e *Exec) resetPath() {
 	e.extra = map[string]interface{}{}
 }
 
+func maxInt(a, b int) int {
+	if a > b {
+		return a
+	}
+	return b
+}
+
+// takeJob blocks until a subtree is available; false when the whole exploration is finished.
+func (e *Exec) takeJob() (job, bool) {
+	sh := e.sh
+	sh.mu.Lock()
+	defer sh.mu.Unlock()
+	for {
+		if sh.stop || sh.done {
+			return job{}, false
+		}
+		if n := len(sh.queue); n > 0 {
+			j := sh.queue[n-1]
+			sh.queue = sh.queue[:n-1]
+			return j, true
+		}
+		sh.idle++
+		if sh.idle == sh.nw {
+			sh.done = true
+			sh.cond.Broadcast()
+			return job{}, false
+		}
+		sh.cond.Wait()
+		sh.idle--
+	}
+}
+
+// donate hands the shallowest pending alternative of this worker's stack to an idle worker.
+func (e *Exec) donate() {
+	sh := e.sh
+	sh.mu.Lock()
+	idle := sh.idle > 0 && len(sh.queue) < sh.idle
+	sh.mu.Unlock()
+	if !idle {
+		return
+	}
+	for i := e.base; i < len(e.stack); i++ {
+		d := &e.stack[i]
+		var nd decision
+		ok := false
+		switch d.kind {
+		case 'b':
+			if len(d.alts) > 0 {
+				nd = decision{kind: 'b', choice: d.alts[0]}
+				d.alts = nil
+				ok = true
+			}
+		case 'p':
+			if d.choice+1 < d.n {
+				nd = decision{kind: 'p', choice: d.choice + 1, n: d.n, pn: d.pn}
+				d.n = d.choice + 1
+				ok = true
+			}
+		case 'c':
+			if !d.dead && !d.needNext {
+				nd = decision{kind: 'c', n: d.n, tried: append(append([]uint64{}, d.tried...), d.cur), needNext: true}
+				d.dead = true
+				ok = true
+			}
+		}
+		if !ok {
+			continue
+		}
+		st := make([]decision, i+1)
+		copy(st, e.stack[:i])
+		st[i] = nd
+		j := job{stack: st, base: i}
+		if nd.kind == 'b' {
+			j.base = i + 1
+		}
+		sh.mu.Lock()
+		sh.queue = append(sh.queue, j)
+		sh.donated++
+		sh.cond.Signal()
+		sh.mu.Unlock()
+		return
+	}
+}
+
 func (e *Exec) explore(fn *ssa.Function) {
+	for {
+		j, ok := e.takeJob()
+		if !ok {
+			return
+		}
+		e.stack = j.stack
+		e.base = j.base
+		e.exploreJob(fn)
+	}
+}
+
+func (e *Exec) exploreJob(fn *ssa.Function) {
 	for {
 		e.sh.mu.Lock()
 		stop := e.sh.stop
@@ -327,6 +441,10 @@ func (e *Exec) explore(fn *ssa.Function) {
 		}
 		if !e.Cfg.Deadline.IsZero() && time.Now().After(e.Cfg.Deadline) {
 			e.St.Limits["wall-clock deadline"]++
+			e.sh.mu.Lock()
+			e.sh.stop = true
+			e.sh.cond.Broadcast()
+			e.sh.mu.Unlock()
 			return
 		}
 		e.resetPath()
@@ -335,20 +453,13 @@ func (e *Exec) explore(fn *ssa.Function) {
 		if len(e.pc) > e.St.MaxPC {
 			e.St.MaxPC = len(e.pc)
 		}
-		counted := true
-		switch end.kind {
-		case "skip", "exhausted":
-			counted = false
-		}
-		if counted && len(e.stack) < e.Cfg.SplitDepth && e.wid != 0 {
-			counted = false // short paths belong to worker 0
-		}
-		if counted {
+		if end.kind != "exhausted" {
 			e.St.Paths++
 			e.sh.mu.Lock()
 			e.sh.paths++
-			if e.Cfg.MaxPaths > 0 && e.sh.paths >= e.Cfg.MaxPaths {
+			if e.Cfg.MaxPaths > 0 && e.sh.paths >= e.Cfg.MaxPaths && !e.sh.stop {
 				e.sh.stop = true
+				e.sh.cond.Broadcast()
 				e.St.Limits["maxPaths reached"]++
 			}
 			e.sh.mu.Unlock()
@@ -356,25 +467,30 @@ func (e *Exec) explore(fn *ssa.Function) {
 			case "done":
 				e.St.PathsDone++
 				if len(e.St.Samples) < 3 || (e.St.PathsDone%97 == 0 && len(e.St.Samples) < 8) {
-					e.St.Samples = append(e.St.Samples, Violation{Harness: e.harness, Kind: "witness", Inputs: e.evalInputs(e.model), Path: e.pathString(), Tags: e.tags})
+					m, _ := e.solveModel(nil)
+					e.St.Samples = append(e.St.Samples, Violation{Harness: e.harness, Kind: "witness", Inputs: e.evalInputs(m), Path: e.pathString(), Tags: e.tags})
 				}
 			case "assume":
 				e.St.PathsAssume++
 			case "panic":
 				e.St.PathsPanic++
 				if !e.Cfg.PanicOK {
-					e.recordViolation("panic", end.msg, e.model)
+					e.recordViolation("panic", end.msg, nil)
 				}
 			case "unsupported":
 				e.St.Unsupported[end.msg]++
 			case "limit":
 				e.St.Limits[end.msg]++
+			case "deadlock", "exit":
+				e.St.Ends[end.kind+": "+end.msg]++
 			case "violation-end":
 			}
 		}
-		if e.S.NumDefs() > 400000 {
+		if e.S.NumDefs() > 200000 {
 			e.S.Restart()
+			e.asserted = nil
 		}
+		e.donate()
 		if !e.backtrack() {
 			return
 		}
@@ -414,7 +530,7 @@ func (e *Exec) panicString(p *goPanic) string {
 }
 
 func (e *Exec) backtrack() bool {
-	for len(e.stack) > 0 {
+	for len(e.stack) > e.base {
 		d := &e.stack[len(e.stack)-1]
 		switch d.kind {
 		case 'b':
@@ -461,33 +577,8 @@ func (e *Exec) pathStringOld() string {
 	return sb.String()
 }
 
-// pushed / replayed are called after a decision was appended / consumed: when the number of
-// consumed decisions reaches the split depth, the prefix must be owned by this worker.
-func (e *Exec) pushed()   { e.atSplit() }
-func (e *Exec) replayed() { e.atSplit() }
-
-func (e *Exec) atSplit() {
-	if e.Cfg.Workers <= 1 || e.pos != e.Cfg.SplitDepth {
-		return
-	}
-	key := e.prefixKey(e.Cfg.SplitDepth)
-	if e.owned[key] {
-		return
-	}
-	e.sh.mu.Lock()
-	taken := e.sh.claimed[key]
-	if !taken {
-		e.sh.claimed[key] = true
-	}
-	e.sh.mu.Unlock()
-	if taken {
-		panic(pathEnd{"skip", ""})
-	}
-	if e.owned == nil {
-		e.owned = map[string]bool{}
-	}
-	e.owned[key] = true
-}
+func (e *Exec) pushed()   {}
+func (e *Exec) replayed() {}
 
 func (e *Exec) prefixKey(n int) string {
 	var sb strings.Builder
@@ -511,41 +602,63 @@ func (e *Exec) prefixKey(n int) string {
 // ---------------------------------------------------------------- path condition
 
 func (e *Exec) assume(c *term.Term, side bool) {
-	if side {
-		e.pc = append(e.pc, c)
-	} else {
-		e.pc = append(e.pc, e.TB.Not(c))
+	lit := c
+	if !side {
+		lit = e.TB.Not(c)
 	}
+	e.pc = append(e.pc, lit)
 	e.pcLit[c.ID] = side
+	// mirror into the solver's assertion stack (one scope per literal); a replayed prefix that
+	// is already asserted is left in place, so the solver keeps what it learned about it
+	i := len(e.pc) - 1
+	if i < len(e.asserted) {
+		if e.asserted[i] == lit {
+			return
+		}
+		e.S.Pop(len(e.asserted) - i)
+		e.asserted = e.asserted[:i]
+	}
+	e.S.Push()
+	e.S.Assert(lit)
+	e.asserted = append(e.asserted, lit)
+}
+
+// syncSolver drops assertions of a previous, longer path.
+func (e *Exec) syncSolver() {
+	if len(e.asserted) > len(e.pc) {
+		e.S.Pop(len(e.asserted) - len(e.pc))
+		e.asserted = e.asserted[:len(e.pc)]
+	}
 }
 
 func (e *Exec) check(extra *term.Term) smt.Result {
-	lits := make([]*term.Term, 0, len(e.pc)+1)
-	lits = append(lits, e.pc...)
-	if extra != nil {
-		lits = append(lits, extra)
-	}
-	r := e.S.Check(lits, nil)
+	e.syncSolver()
+	r := e.S.CheckAssuming(extra)
 	if r == smt.Unknown {
 		e.St.Unknowns++
 	}
 	return r
 }
 
-func (e *Exec) fetchModel() map[string]uint64 {
+// solveModel returns a model of pc (and extra, if non-nil) computed in a clean solver context.
+func (e *Exec) solveModel(extra *term.Term) (map[string]uint64, smt.Result) {
+	lits := make([]*term.Term, 0, len(e.pc)+1)
+	lits = append(lits, e.pc...)
+	if extra != nil {
+		lits = append(lits, extra)
+	}
+	vals, r := e.S.Model(lits, e.vars)
+	if r != smt.Sat {
+		if r == smt.Unknown {
+			e.St.Unknowns++
+		}
+		return nil, r
+	}
 	m := map[string]uint64{}
-	if len(e.vars) == 0 {
-		return m
-	}
-	vals, err := e.S.Values(e.vars)
-	if err != nil {
-		e.St.SolverErrors++
-		return nil
-	}
 	for t, v := range vals {
 		m[t.Name] = v
 	}
-	return m
+	return m, r
 }
 
 func (e *Exec) evalTerm(t *term.Term, m map[string]uint64) uint64 {
@@ -596,16 +709,17 @@ func (e *Exec) branch(c *term.Term) bool {
 			ot = e.TB.Not(c)
 		}
 		r := e.check(ot)
-		if r == smt.Sat {
-			d.models[b2i(other)] = e.fetchModel()
-			d.alts = []int{b2i(other)}
-		} else if r == smt.Unknown {
+		if r != smt.Unsat {
+			// model of the other side is established lazily when that side is explored
 			d.models[b2i(other)] = nil
 			d.alts = []int{b2i(other)}
 		}
 	} else {
 		rt := e.check(c)
-		rf := e.check(e.TB.Not(c))
+		rf := smt.Sat // the path condition is feasible: if c is infeasible, not-c is feasible
+		if rt != smt.Unsat {
+			rf = e.check(e.TB.Not(c))
+		}
 		switch {
 		case rt != smt.Unsat && rf != smt.Unsat:
 			first = true
@@ -627,6 +741,15 @@ func (e *Exec) branch(c *term.Term) bool {
 	return first
 }
 
+// establishModel obtains a model of the current path condition (nil if the solver cannot give one).
+func (e *Exec) establishModel() {
+	if len(e.vars) == 0 {
+		e.model = map[string]uint64{}
+		return
+	}
+	e.model, _ = e.solveModel(nil)
+}
+
 func b2i(b bool) int {
 	if b {
 		return 1
@@ -642,19 +765,20 @@ func (e *Exec) pick(n int) int {
 	if e.pos < len(e.stack) {
 		d := &e.stack[e.pos]
 		e.pos++
-		if d.kind != 'p' || d.n != n {
+		if d.kind != 'p' || d.pn != n {
 			panic(fmt.Sprintf("vx: replay divergence (pick) in %s", e.harness))
 		}
 		e.replayed()
 		return d.choice
 	}
-	e.stack = append(e.stack, decision{kind: 'p', n: n})
+	e.stack = append(e.stack, decision{kind: 'p', n: n, pn: n})
 	e.pos++
 	e.pushed()
 	return 0
 }
 
-// concretize enumerates the feasible values of t (forking).
+// concretize enumerates the feasible values of t (forking). Small values 0..32 are tried with
+// plain feasibility queries first (lengths and counts); other values come from a solver model.
 func (e *Exec) concretize(t *term.Term) uint64 {
 	if t.Op == term.OConst {
 		return t.Val
@@ -666,26 +790,22 @@ func (e *Exec) concretize(t *term.Term) uint64 {
 			panic(fmt.Sprintf("vx: replay divergence (concretize) in %s", e.harness))
 		}
 		if d.needNext {
-			// advance to the next untried value
 			ex := e.TB.True
 			for _, v := range d.tried {
 				ex = e.TB.And(ex, e.TB.Not(e.TB.Eq(t, e.TB.Const(t.W, v))))
 			}
 			r := e.check(ex)
-			if r != smt.Sat {
-				if r == smt.Unknown {
-					e.St.Limits["concretize: solver unknown while enumerating values"]++
-				}
+			if r == smt.Unsat {
 				d.dead = true
 				panic(pathEnd{"exhausted", ""})
 			}
-			m := e.fetchModel()
-			if m == nil {
+			v, ok := e.nextValue(t, d, ex)
+			if !ok {
 				d.dead = true
-				panic(pathEnd{"unsupported", "no model for concretize"})
+				e.St.Limits["concretize: could not enumerate values"]++
+				panic(pathEnd{"exhausted", ""})
 			}
-			d.cur = e.evalTerm(t, m)
-			d.model = m
+			d.cur = v
 			d.needNext = false
 			if len(d.tried) > 4096 {
 				d.dead = true
@@ -693,23 +813,52 @@ func (e *Exec) concretize(t *term.Term) uint64 {
 			}
 		}
 		e.assume(e.TB.Eq(t, e.TB.Const(t.W, d.cur)), true)
-		e.model = d.model
+		e.model = nil
 		e.replayed()
 		return d.cur
 	}
-	if e.model == nil {
-		r := e.check(nil)
-		if r != smt.Sat {
-			panic(pathEnd{"unsupported", "concretize without model"})
-		}
-		e.model = e.fetchModel()
+	d := decision{kind: 'c'}
+	v, ok := e.nextValue(t, &d, nil)
+	if !ok {
+		panic(pathEnd{"unsupported", "concretize: no value found"})
 	}
-	v := e.evalTerm(t, e.model)
-	e.stack = append(e.stack, decision{kind: 'c', cur: v, model: e.model})
+	d.cur = v
+	e.stack = append(e.stack, d)
 	e.pos++
 	e.assume(e.TB.Eq(t, e.TB.Const(t.W, v)), true)
+	e.model = nil
 	e.pushed()
 	return v
+}
+
+func (e *Exec) nextValue(t *term.Term, d *decision, excl *term.Term) (uint64, bool) {
+	for d.n <= 32 {
+		v := uint64(d.n)
+		d.n++
+		if v > term.Mask(t.W) {
+			break
+		}
+		if e.check(e.TB.Eq(t, e.TB.Const(t.W, v))) == smt.Sat {
+			return v, true
+		}
+	}
+	// exclude the small candidates already covered
+	ex := excl
+	if ex == nil {
+		ex = e.TB.True
+	}
+	if t.W > 5 {
+		ex = e.TB.And(ex, e.TB.Ult(e.TB.Const(t.W, 32), t))
+	}
+	m, r := e.solveModel(ex)
+	if r != smt.Sat {
+		if r == smt.Unknown {
+			return 0, false
+		}
+		// nothing above 32 and nothing untried below: exhausted
+		return 0, false
+	}
+	return e.evalTerm(t, m), true
 }
 
 func (e *Exec) concInt(v Value) int {
@@ -767,10 +916,7 @@ func (e *Exec) evalInputs(m map[string]uint64) []InputVal {
 
 func (e *Exec) recordViolation(kind, msg string, m map[string]uint64) {
 	if m == nil {
-		// need a model of the path condition
-		if e.check(nil) == smt.Sat {
-			m = e.fetchModel()
-		}
+		m, _ = e.solveModel(nil) // need a model of the path condition
 	}
 	v := Violation{Harness: e.harness, Kind: kind, Msg: msg, Inputs: e.evalInputs(m), Path: e.pathString(), Tags: append([]string{}, e.tags...)}
 	if len(e.St.Violations) < 50 {
@@ -780,6 +926,7 @@ func (e *Exec) recordViolation(kind, msg string, m map[string]uint64) {
 	e.sh.nviol++
 	if e.sh.nviol >= 12 {
 		e.sh.stop = true // enough counterexamples: stop exploring this harness
+		e.sh.cond.Broadcast()
 	}
 	e.sh.mu.Unlock()
 }
